@@ -38,14 +38,24 @@ impl Prop for C04 {
      another child; distinct by hash of the case JSON".into()
   }
   fn legs(&self, _tier: Tier) -> Vec<Leg<TreeCase>> {
-    vec![Leg {
-      name: "provenance trees",
-      source: Cases::Generated(
-        Box::new(|| tree(GenCfg::provenance()).prop_map(|spec| TreeCase { spec }).boxed()),
-        1_000_000,
-        12_000_000,
-      ),
-    }]
+    vec![
+      Leg {
+        name: "provenance trees",
+        source: Cases::Generated(
+          Box::new(|| tree(GenCfg::provenance()).prop_map(|spec| TreeCase { spec }).boxed()),
+          1_000_000,
+          12_000_000,
+        ),
+      },
+      Leg {
+        name: "larger provenance trees (depth<=4, <=6 children, <=30 tokens)",
+        source: Cases::Generated(
+          Box::new(|| tree(GenCfg { depth: 4, max_children: 6, max_tokens: 30, ..GenCfg::provenance() }).prop_map(|spec| TreeCase { spec }).boxed()),
+          60_000,
+          800_000,
+        ),
+      },
+    ]
   }
   fn check(&self, case: &TreeCase) -> CheckResult {
     let spec = &case.spec;
